@@ -124,8 +124,14 @@ def path_classes(pp, path, flags, impl_accepts, verdict, text):
     if k5 and not pp.absolute:
         if impl_accepts and verdict == R.MUSTNOT and any(s[:1] == '.' for s in (psegs if _ab else psegs[1:])):
             out.add('K5')
-    if psegs and psegs[-1] in ('.\n', '..\n') and not ptrail and not impl_accepts and verdict == R.MUST:
-        out.add('K6b')
+    if path.endswith('\n'):
+        # K33: `$` inside the translated regex (the divider next to a globstar, the `.`/`..` look-ahead) also matches before a
+        # final newline
+        gs = (flags.get('globstar') or flags.get('globstarlong')) and any(isinstance(s_, str) for s_ in pp.segs)
+        if impl_accepts and verdict == R.MUSTNOT and (gs or flags.get('matchbase') or flags.get('extmatchbase')):
+            out.add('K33')
+        if not impl_accepts and verdict == R.MUST and path[:-1].endswith('.'):
+            out.add('K33')
     return out
 
 
